@@ -345,7 +345,7 @@ def run_kani(scratch, package, insts, jobs, timeout_s, small=True, extra_cfg=(),
     stop = threading.Event(); killed = []
     wd = threading.Thread(target=mem_watchdog, args=(stop, mem_cap_gb * 1024 * 1024, killed), daemon=True)
     wd.start()
-    deadline = t0 + timeout_s
+    deadline = time.time() + timeout_s   # the budget starts when code generation is done
     results = {}
 
     def work(inst):
